@@ -3065,8 +3065,10 @@ class Entity(MutableMapping[str, str]):
         key = key.casefold()
         for k in self._keys:
             if k.casefold() == key:
-                # TODO: B909 bug?
-                return self._keys.pop(k)
+                value = self._keys[k]
+                # Go through __delitem__() so by_class/by_target stay correct.
+                del self[k]
+                return value
         return default
 
     def clear(self) -> None:
